@@ -19,4 +19,4 @@ run_one() {
   rm -rf "$S"
 }
 export -f run_one
-printf "%s\n" "${seeds[@]}" | xargs -P 3 -I{} bash -c 'run_one {}'
+printf "%s\n" "${seeds[@]}" | xargs -P ${MATRIX_JOBS:-4} -I{} bash -c 'run_one {}'
